@@ -24,7 +24,8 @@ from harness.pool import pmap
 PROP = "C17"
 OPS = ["mean", "min", "max", "median", "std", "var", "sum", "prod", "all", "any"]
 DESTS = ["face", "edge"]
-INVS = ["TypeOK", "L2_Partition", "L2_FaceAgg", "PaddingIrrelevant", "L2_EdgeAgg", "Laws", "TracerReadable"]
+INVS = ["TypeOK", "L2_Partition", "L2_FaceAgg", "PaddingIrrelevant", "WholeTableIsWrong", "L2_EdgeAgg", "Laws", "TracerReadable"]
+PADS = [0, 1, 2]  # extra width of the stored face-node table beyond its widest face (AggScope.Pads)
 LEAD_NAMES = ["time", "lev", "ens"]
 TOL = 1e-12
 
@@ -32,8 +33,8 @@ TOL = 1e-12
 # ----------------------------------------------------------------------------- generation
 def scope_cfg(nnode, maxfaces, sizes, canon, npat, salt, invs):
     return (
-        "INIT Init\nNEXT Next\nCONSTANTS\n NNode = %d\n MaxFaces = %d\n Sizes = {%s}\n Canon = %s\n NPat = %d\n Salt = %d\n"
-        % (nnode, maxfaces, ",".join(map(str, sizes)), "TRUE" if canon else "FALSE", npat, salt)
+        "INIT Init\nNEXT Next\nCONSTANTS\n NNode = %d\n MaxFaces = %d\n Sizes = {%s}\n Canon = %s\n NPat = %d\n Salt = %d\n Pads = {%s}\n"
+        % (nnode, maxfaces, ",".join(map(str, sizes)), "TRUE" if canon else "FALSE", npat, salt, ",".join(map(str, PADS)))
         + "".join("INVARIANT %s\n" % i for i in invs)
         + "CHECK_DEADLOCK FALSE\n"
     )
@@ -100,6 +101,8 @@ def shape_case(cid, k, mesh, n_node, rows4, layout=None, backing=None, **extra):
     c = {"prop": PROP, "id": cid, "mesh": mesh, "n_node": n_node, "rows": rows, "den": den, "dtype": dtype, "lead": lead, "pos": lay["pos"], "k": k}
     # one block of 18 in six: the data as a chunked dask array
     c["backing"] = backing or ("dask" if (k // 18) % 6 == 1 else "numpy")
+    # table layout: the stored face-node table as wide as its widest face, or 1 / 2 columns wider (every row padded)
+    c["pad"] = PADS[(k // 2) % len(PADS)]
     c.update(extra)
     return c
 
@@ -133,39 +136,26 @@ def proj(x, squared=False):
     return r
 
 
-def record_case(case):
+def build_grid(case):
+    """Grid.from_topology of the case's mesh, the face-node table case['pad'] columns wider than its widest face."""
     import numpy as np
 
     ux = hux.import_ux()
-    rec = {k: case[k] for k in ("id", "n_node", "mesh", "den", "dtype", "lead", "pos", "rows")}
-    lead = case["lead"]
-    pos = case["pos"]
-    rec["lead_dims"] = LEAD_NAMES[: len(lead)]
+    if "lon" in case:
+        lon, lat = case["lon"], case["lat"]
+    else:
+        lon, lat = meshgen.arbitrary_coords(case["n_node"])
+    INT_DTYPE, FILL = hux.consts()
+    conn = hux.pad_table(case["mesh"], width=max(len(f) for f in case["mesh"]) + case.get("pad", 0))
+    return ux.Grid.from_topology(np.array(lon, dtype=float), np.array(lat, dtype=float), conn, fill_value=FILL)
 
-    def ins(seq, x):
-        return list(seq[:pos]) + [x] + list(seq[pos:])
 
-    try:
-        g = mc.build_grid(case)
-        npdt = {"int": np.int64, "float": np.float64, "bool": np.bool_}[case["dtype"]]
-        arr = np.array(case["rows"], dtype=np.int64).reshape(lead + [case["n_node"]])
-        arr = np.ascontiguousarray(np.moveaxis(arr, -1, pos))  # the node axis at its position in this layout
-        data = (arr / case["den"]).astype(npdt) if case["den"] != 1 else arr.astype(npdt)
-        dims = ins(rec["lead_dims"], "n_node")
-        rec["backing"] = case.get("backing", "numpy")
-        if rec["backing"] == "dask":
-            import dask.array as da
+def run_ops(uxda, g, dests):
+    """All ten reductions to each destination: projected result in its own C order, dims, shape, class, grid."""
+    import numpy as np
 
-            data = da.from_array(data, chunks=tuple(ins([1] * len(lead), max(1, case["n_node"] // 2))))
-        uxda = ux.UxDataArray(data, dims=dims, uxgrid=g, name="v")
-        rows, dt_ok, fill_ok = hux.table(g.edge_node_connectivity)
-        rec["edges"] = rows
-        n_edge = len(rows)
-    except Exception as e:  # noqa - building the grid is C01/C02's business: machinery here
-        rec["error"] = "%s: %s" % (type(e).__name__, str(e)[:200])
-        return rec
     res = {}
-    for dest in DESTS:
+    for dest in dests:
         res[dest] = {}
         for op in OPS:
             try:
@@ -183,6 +173,42 @@ def record_case(case):
                 }
             except Exception as e:  # noqa - a supported combination must return numbers: recorded, judged
                 res[dest][op] = {"err": "%s: %s" % (type(e).__name__, str(e)[:160])}
+    return res
+
+
+def record_case(case):
+    import numpy as np
+
+    ux = hux.import_ux()
+    rec = {k: case[k] for k in ("id", "n_node", "mesh", "den", "dtype", "lead", "pos", "rows")}
+    lead = case["lead"]
+    pos = case["pos"]
+    rec["lead_dims"] = LEAD_NAMES[: len(lead)]
+
+    def ins(seq, x):
+        return list(seq[:pos]) + [x] + list(seq[pos:])
+
+    try:
+        g = build_grid(case)
+        rec["width"] = int(g.n_max_face_nodes)
+        npdt = {"int": np.int64, "float": np.float64, "bool": np.bool_}[case["dtype"]]
+        arr = np.array(case["rows"], dtype=np.int64).reshape(lead + [case["n_node"]])
+        arr = np.ascontiguousarray(np.moveaxis(arr, -1, pos))  # the node axis at its position in this layout
+        data = (arr / case["den"]).astype(npdt) if case["den"] != 1 else arr.astype(npdt)
+        dims = ins(rec["lead_dims"], "n_node")
+        rec["backing"] = case.get("backing", "numpy")
+        if rec["backing"] == "dask":
+            import dask.array as da
+
+            data = da.from_array(data, chunks=tuple(ins([1] * len(lead), max(1, case["n_node"] // 2))))
+        uxda = ux.UxDataArray(data, dims=dims, uxgrid=g, name="v")
+        rows, dt_ok, fill_ok = hux.table(g.edge_node_connectivity)
+        rec["edges"] = rows
+        n_edge = len(rows)
+    except Exception as e:  # noqa - building the grid is C01/C02's business: machinery here
+        rec["error"] = "%s: %s" % (type(e).__name__, str(e)[:200])
+        return rec
+    res = run_ops(uxda, g, DESTS)
     rec["res"] = res
     # unsupported combinations: face- or edge-centred source (any destination), unknown destination
     unsup = []
@@ -211,6 +237,129 @@ def record_case(case):
     rec["unsup"] = unsup
     rec["sizes"] = {"n_node": case["n_node"], "n_face": n_face, "n_edge": n_edge}
     return rec
+
+
+# ----------------------------------------------------------------------------- histories (AggHist.tla)
+COVER = {}
+AGG_HIST_CFG = "SPECIFICATION Spec\nCONSTANTS\n SliceKeepsAggCache = %s\n MaxLen = %d\n MaxHandles = 2\nINVARIANT TypeOK\nINVARIANT AggOwn\nCHECK_DEADLOCK FALSE\n"
+
+
+def gen_agg_histories(ctx, maxlen):
+    """Model-check the intended machine, dump = all histories; refute the knob, return its counterexample history."""
+    import re
+
+    dump = os.path.join(ctx.work, "agg_hist")
+    r = ctx.tlc_ok(
+        "AggHist",
+        AGG_HIST_CFG % ("FALSE", maxlen),
+        what="history machine around the aggregations (Agg / Slice / Copy / Dual), intended mechanism: no handle aggregates with another handle's stored state; all histories of <= %d steps" % maxlen,
+        dump=dump,
+        timeout=1200,
+    )
+    with open(dump + ".dump") as fh:
+        states = tlaval.parse_dump(fh.read())
+    os.remove(dump + ".dump")
+    hists = sorted({tuple(tuple(st) for st in s["hist"]) for s in states if len(s["hist"]) > 0})
+    if len(hists) != r.distinct - 1:
+        raise Machinery("history dump: %d histories for %d states" % (len(hists), r.distinct))
+    rr = ctx.tlc("AggHist", AGG_HIST_CFG % ("TRUE", maxlen), what="mechanism sliceKeepsAggCache = TRUE must be refuted (AggOwn)", workers=1, timeout=600)
+    if rr.violated != "AggOwn":
+        raise Machinery("TLC did not refute mechanism sliceKeepsAggCache: violated=%s" % rr.violated)
+    m = re.findall(r"/\\ hist = (<<.*>>)", rr.trace_text or rr.out)
+    if not m:
+        raise Machinery("no counterexample history for sliceKeepsAggCache")
+    cex = tuple(tuple(st) for st in tlaval.parse(m[-1]))
+    # the refuting history ends when the subset is cut: the aggregation on the subset is what exposes it
+    directed = [cex + (("agg", 2, "face"),), cex + (("agg", 2, "edge"), ("agg", 2, "face"))]
+    ctx.note("mechanism_refuted_by_tlc", {"sliceKeepsAggCache": [list(st) for st in cex]})
+    return hists, directed
+
+
+def hist_sel(sel, mesh):
+    nf = len(mesh)
+    k = max(1, nf // 2)
+    if sel == "low":
+        return list(range(0, k))
+    if sel == "high":
+        return list(range(nf - k, nf))
+    if sel == "onesize":
+        small = min(len(f) for f in mesh)
+        return [i for i, f in enumerate(mesh) if len(f) == small]  # one size class only: uniform, in the parent's wider table
+    return list(range(0, nf, 2))
+
+
+def _own_mesh(g):
+    rows, _, _ = hux.table(g.face_node_connectivity)
+    return [[n for n in row if n >= 0] for row in rows]
+
+
+def _handle_record(ux, g, rid, k, dests, kind):
+    """Aggregate a node row on handle g to the given destinations; record against the handle's OWN tables."""
+    import numpy as np
+
+    n = int(g.n_node)
+    dtype = ["int", "float", "bool"][k % 3]
+    row = [((j * 7 + k) % 9) - 4 for j in range(n)]
+    if dtype == "bool":
+        row = [1 if v > 0 else 0 for v in row]
+    npdt = {"int": np.int64, "float": np.float64, "bool": np.bool_}[dtype]
+    uxda = ux.UxDataArray(np.array(row, dtype=np.int64).astype(npdt), dims=["n_node"], uxgrid=g, name="v")
+    res = run_ops(uxda, g, dests)  # first: the aggregation itself, before anything else is read from the handle
+    rec = {"id": rid, "n_node": n, "mesh": _own_mesh(g), "den": 1, "dtype": dtype, "lead": [], "pos": 0, "lead_dims": [], "rows": [row],
+           "dests": list(dests), "res": res, "unsup": [], "handle": kind, "width": int(g.n_max_face_nodes), "backing": "numpy"}  # fmt: skip
+    rec["edges"] = hux.table(g.edge_node_connectivity)[0]
+    return rec
+
+
+def record_agg_hist(case):
+    """Replay one history; every Agg step and, afterwards, both destinations on every handle are recorded."""
+    ux = hux.import_ux()
+    recs = []
+    try:
+        g0 = build_grid(case["root"])
+        handles, kinds = [g0], ["root"]
+        for si, st in enumerate(case["hist"]):
+            kind = st[0]
+            if st[1] - 1 >= len(handles):
+                break  # a step on a handle that could not be built (dual of this mesh refused)
+            h = handles[st[1] - 1]
+            if kind == "agg":
+                recs.append(_handle_record(ux, h, "%s@%d" % (case["id"], si), case["k"] + si, [st[2]], kinds[st[1] - 1]))
+            elif kind == "slice":
+                handles.append(h.isel(n_face=hist_sel(st[2], _own_mesh(h))))
+                kinds.append("slice")
+            elif kind == "copy":
+                handles.append(h.copy())
+                kinds.append("copy")
+            elif kind == "dual":
+                try:
+                    handles.append(h.get_dual())
+                    kinds.append("dual")
+                except Exception:  # noqa - whether this mesh has a dual is C18's subject
+                    break
+        for hi, g in enumerate(handles):
+            recs.append(_handle_record(ux, g, "%s#%d" % (case["id"], hi), case["k"] + 5 + hi, DESTS, kinds[hi]))
+    except Exception as e:  # noqa
+        return [{"id": case["id"] + "#0", "error": "%s: %s" % (type(e).__name__, str(e)[:200])}]
+    return recs
+
+
+def agg_hist_cases(rng, hists, directed):
+    roots = []
+    for name, cut, pad in (("cuboctahedron", 3, 0), ("truncated_octahedron_split", 2, 1), ("truncated_cube_split", 3, 0), ("cuboctahedron", 0, 0), ("rhombicuboctahedron", 5, 2)):
+        e = catalog.entries(name=name, rot=0, cut=cut)[0]
+        faces = [list(f) for f in e["faces"]]
+        rng.shuffle(faces)  # any face ordering: sizes interleaved
+        lonlat = [lattice.lonlat_deg(v) for v in e["nodes"]]
+        roots.append({"id": "%s/c%d/pad%d" % (name, cut, pad), "mesh": faces, "n_node": len(e["nodes"]), "lon": [p[0] for p in lonlat], "lat": [p[1] for p in lonlat], "pad": pad})
+    cases = []
+    for k, h in enumerate(list(dict.fromkeys(directed + hists))):
+        root = roots[k % len(roots)]
+        cases.append({"id": "hist:%d:%s" % (k, root["id"]), "root": root, "hist": [list(st) for st in h], "k": k, "prop": PROP})
+    for j, root in enumerate(roots):  # the directed histories on every root
+        for d, h in enumerate(directed):
+            cases.append({"id": "hist:cex%d:%s" % (d, root["id"]), "root": root, "hist": [list(st) for st in h], "k": j + d, "prop": PROP})
+    return cases
 
 
 # ----------------------------------------------------------------------------- code -> spec inputs
@@ -289,14 +438,16 @@ def judge_records(ctx, recs, by_id):
     for v in res.prints:
         if isinstance(v, tuple) and len(v) == 3 and v[0] == "V":
             failed.setdefault(recs[v[1] - 1]["id"], set()).add(v[2])
-        elif isinstance(v, tuple) and len(v) == 3 and v[0] == "S":
-            shapes.setdefault(recs[v[1] - 1]["id"], set()).add(v[2])
+        elif isinstance(v, tuple) and len(v) == 3 and v[0] == "C":
+            COVER[v[2]] = COVER.get(v[2], 0) + 1
     if res.out.count('"V"') != sum(len(x) for x in failed.values()):
         raise Machinery("judge output not fully parsed: %d verdict lines, %d parsed" % (res.out.count('"V"'), sum(len(x) for x in failed.values())))
     for rid, cl in failed.items():
         c = by_id[rid]
         for clause in sorted(cl):
-            sig = {"scope": rid.split(":")[0], "dtype": c["dtype"], "rank": len(c["lead"]) + 1, "pos": c["pos"], "backing": c["backing"]}
+            sig = {"scope": rid.split(":")[0], "dtype": c.get("dtype"), "rank": len(c.get("lead", [])) + 1, "pos": c.get("pos", 0), "backing": c.get("backing", "numpy")}
+            if "hist" in c:
+                sig["handle"] = c.get("handle")
             ctx.violation(rid, clause, detail={"failed": sorted(cl)}, replay=c, sig=sig)
     return failed
 
@@ -343,6 +494,12 @@ def run(ctx):
     for i, lay in enumerate(LAYOUTS):
         for backing in ("numpy", "dask"):
             cases.append(shape_case("lay:%d:%s" % (i, backing), i + (0 if backing == "numpy" else 5), lay_mesh, 6, lay_rows, layout=lay, backing=backing))
+    # table layouts: uniform and mixed sizes in tables 1 / 2 columns wider than the widest face, numpy and dask
+    wide = {"tri": [[0, 1, 2], [2, 1, 3], [3, 1, 4]], "quad": [[0, 1, 2, 3], [3, 2, 4, 5]], "mixed": [[0, 1, 2], [2, 1, 3, 4, 5], [0, 2, 5, 4]]}
+    for nm, m in wide.items():
+        for pad in PADS[1:]:
+            for j, backing in enumerate(("numpy", "dask")):
+                cases.append(shape_case("wide:%s:pad%d:%s" % (nm, pad, backing), 3 * pad + j, m, 6, lay_rows, backing=backing, pad=pad))
     ctx.exhaustive = True
     n_small = len(cases)
 
@@ -360,6 +517,30 @@ def run(ctx):
     for a in range(0, len(small), step):
         failed.update(judge_records(ctx, small[a : a + step], by_id))
     failed.update(judge_records(ctx, big, by_id))
+
+    # 4. histories around the aggregations (AggHist.tla): every aggregation on any handle (grid, subset, copy, dual)
+    #    is the fold over that handle's own tables, whatever was aggregated on the parent before
+    COVER.clear()
+    hists, directed = gen_agg_histories(ctx, 4 if thorough else 3)
+    hcases = agg_hist_cases(rng, hists, directed)
+    nested = pmap(record_agg_hist, hcases)
+    hrecs, hby = [], {}
+    for c, rs in zip(hcases, nested):
+        for r in rs:
+            hrecs.append(r)
+            hby[r["id"]] = {"id": r["id"], "hist_id": c["id"], "hist": c["hist"], "root": c["root"], "k": c["k"], "handle": r.get("handle"), "dtype": r.get("dtype"), "prop": PROP}
+    for a in range(0, len(hrecs), step):
+        failed.update(judge_records(ctx, hrecs[a : a + step], hby))
+    for need in ("UniformInWiderTable", "MixedSubset"):
+        if not COVER.get(need):
+            raise Machinery("aggregation histories / table layouts are vacuous: no record with %s" % need)
+    ctx.note("histories_generated_by_tlc", len(hists))
+    ctx.note("histories_replayed", len(hcases))
+    ctx.note("history_records_judged", len(hrecs))
+    ctx.note("coverage_decided_by_tlc", dict(COVER))
+    ctx.note("table_pads_replayed", sorted({c.get("pad", 0) for c in cases}))
+    for hc in hcases:
+        ctx.count(1, ("hist", tuple(map(tuple, hc["hist"])), hc["root"]["id"]))
 
     combos = set()
     laycov = set()
@@ -414,6 +595,7 @@ def run(ctx):
         "the edge destination is judged against the grid's own edge_node_connectivity (its correctness is C02)",
         "data are small integers or halves, so sums / products / extrema are exact in binary floating point",
         "'node-centred arrays of any rank' is read as: the node dimension may sit at any position (as the fix ba0bc77d established); the destination dimension must take that position",
+        "table layouts: face-node tables 0 / 1 / 2 columns wider than their widest face (AggScope.Pads); histories: subset / copy / dual handles are judged on their OWN face_node and edge_node tables (their faithfulness to the parent is C09 / C18)",
         "dask-backed (chunked) node data exercised on one block of cases in six; results are computed eagerly by the library",
     ]
 
@@ -426,8 +608,17 @@ def replay(path):
         data = json.load(fh)
     cases = [v["replay"] for v in data["cases"] if v.get("replay")]
     ctx = Ctx(PROP, "replay", 0)
-    recs = [record_case(c) for c in cases]
-    failed = judge_records(ctx, recs, {c["id"]: c for c in cases})
+    plain = [c for c in cases if "hist" not in c]
+    recs = [record_case(c) for c in plain]
+    by = {c["id"]: c for c in plain}
+    done = set()
+    for c in cases:
+        if "hist" in c and c["hist_id"] not in done:
+            done.add(c["hist_id"])
+            for r in record_agg_hist({"id": c["hist_id"], "root": c["root"], "hist": c["hist"], "k": c["k"]}):
+                recs.append(r)
+                by[r["id"]] = dict(c, id=r["id"])
+    failed = judge_records(ctx, recs, by)
     for rid, cl in failed.items():
         print("REPLAY %s: failed %s" % (rid, sorted(cl)))
     import shutil
